@@ -248,7 +248,7 @@ def shrink(fail, budget=20):
 
 def gen(ctx, count):
     rng = ctx.rng
-    cases = answers.gen_cases(ctx, count, (1, 4), (1, 5), [False], ties=0.35, q_per=6, consts=0.1, conj=0.2)
+    cases = answers.gen_cases(ctx, count, (1, 4), (1, 5), [False], ties=0.35, q_per=6, consts=0.1, conj=0.2, subs=0.15)
     out = []
     for c in cases:
         c = {k: v for k, v in c.items() if not k.startswith("_")}
